@@ -97,6 +97,50 @@ def gen_history(case, rng, length):
     return hist
 
 
+def possible_values(case, out, K, states, cap=600):
+    """All values `out` can take when every function on the path may have been evaluated under ANY of the given
+    pipeline states (defaults, bound, prefix) - i.e. what a cache that is never invalidated by mutations can serve."""
+    import itertools
+
+    memo = {}
+
+    def vals(name):
+        if name in K:
+            return {K[name]}
+        if name in memo:
+            return memo[name]
+        memo[name] = set()
+        f = daggen.producer(case, name)
+        res = set()
+        if f is None:
+            res = {d[name] for d, _, _ in states if name in d}
+        else:
+            k = f["outs"].index(name)
+            for d, b, pfx in states:
+                fb = b.get(f["name"], {})
+                argsets = []
+                for p in f["params"]:
+                    if p in fb:
+                        argsets.append({fb[p]})
+                    elif p in K:
+                        argsets.append({K[p]})
+                    elif daggen.producer(case, p) is not None:
+                        argsets.append(vals(p))
+                    elif p in d:
+                        argsets.append({d[p]})
+                    else:
+                        argsets.append(set())
+                for combo in itertools.islice(itertools.product(*argsets), cap):
+                    t = daggen.call_term(f, dict(zip(f["params"], combo)), pfx)
+                    res.add(t if len(f["outs"]) == 1 else f"{t}#{k}")
+                    if len(res) > cap:
+                        break
+        memo[name] = res
+        return res
+
+    return vals(out)
+
+
 def apply_history(v, case, hist, cached, cache_type, scratch, tag, desc_w):
     plog, qlog = probes.new_log(scratch, "p"), probes.new_log(scratch, "q")
     with quiet():
@@ -141,14 +185,15 @@ def apply_history(v, case, hist, cached, cache_type, scratch, tag, desc_w):
             if p[1] != q[1]:
                 # classification: does the cached pipeline serve the value of a pre-mutation state?
                 sig = f"diverge/{last_mut}/{ctx}"
-                for (d0, b0, p0), mk in old_states:
-                    try:
-                        r0 = daggen.ref_eval({**case, "defaults": d0}, out, K, prefix=p0, defaults=d0, bound=b0)["value"]
-                    except daggen.Missing:
-                        continue
-                    if r0 == p[1]:
+                current = (dict(defaults), {k: dict(x) for k, x in bound.items()}, dict(prefix))
+                for st0, mk in old_states:
+                    # explained by results cached before ONE mutation of kind mk (mixed with fresh ones)?
+                    if p[1] in possible_values(case, out, K, [st0, current]):
                         sig = f"stale-after-mutation:{mk}"
                         break
+                else:
+                    if old_states and p[1] in possible_values(case, out, K, [s0 for s0, _ in old_states] + [current]):
+                        sig = "stale-after-mutation:several"
                 v.bad(sig, f"cached pipeline returned {p[1]!r:.160}, uncached twin {q[1]!r:.160}", **w)
                 return hits
             if len(p[2]) < len(q[2]):
